@@ -1073,6 +1073,15 @@ pub fn driver_main(prop: &dyn Property, tier: Tier, root: &Path) -> i32 {
             coverage["sensitivity"] = v;
         }
     }
+    // registry audit (informational): public decoders of the repository the harness does not name
+    if matches!(id, "C01" | "C02") {
+        let repo = std::env::var("EPVERIF_REPO").unwrap_or_else(|_| "/repo".into());
+        if let Ok(o) = std::process::Command::new("python3").arg(root.join("tools/inventory.py")).arg("--json").arg(&repo).output() {
+            if let Ok(v) = serde_json::from_slice::<Value>(&o.stdout) {
+                coverage["entry_point_inventory"] = v;
+            }
+        }
+    }
     if let Some(e) = &infra_error {
         coverage["infrastructure_error"] = Value::String(e.clone());
     }
